@@ -6,7 +6,7 @@ A term is a nested tuple:
   ('l', (p1, p2, ..), body)   ast.Lambda (positional parameters only)
   ('a', func, (arg, ..))      ast.Call   (no keywords)
   ('n', tag, (kid, ..))       every other expression node; tag says which:
-        attr:<name> [value] | bin:<Op> [l, r] | un:<Op> [operand] | cmp:<Op> [l, r] | bool:<Op> [v1, v2, ..]
+        attr:<name> [value] | bin:<Op> [l, r] | un:<Op> [operand] | cmp:<Op>(+<Op>..) [l, r, ..] | bool:<Op> [v1, v2, ..]
         if [test, body, orelse] | tuple [..] | list [..] | dict [k1, .., kn, v1, .., vn] | sub [value, slice]
 Children are listed in the order in which Python's `ast.NodeVisitor.generic_visit` visits them
 (so a pre-order walk of a term meets MetaData calls in the order `extract_metadata` does).
@@ -90,7 +90,7 @@ def to_ast(t: Term) -> ast.expr:
     if tag.startswith("un:"):
         return ast.UnaryOp(op=getattr(ast, tag[3:])(), operand=ks[0])
     if tag.startswith("cmp:"):
-        return ast.Compare(left=ks[0], ops=[getattr(ast, tag[4:])()], comparators=[ks[1]])
+        return ast.Compare(left=ks[0], ops=[getattr(ast, o)() for o in tag[4:].split("+")], comparators=ks[1:])
     if tag.startswith("bool:"):
         return ast.BoolOp(op=getattr(ast, tag[5:])(), values=ks)
     if tag == "if":
@@ -133,9 +133,7 @@ def from_ast(a: ast.AST) -> Term:
     if isinstance(a, ast.UnaryOp):
         return N("un:" + type(a.op).__name__, from_ast(a.operand))
     if isinstance(a, ast.Compare):
-        if len(a.ops) != 1:
-            raise Unrepresentable("chained comparison")
-        return N("cmp:" + type(a.ops[0]).__name__, from_ast(a.left), from_ast(a.comparators[0]))
+        return N("cmp:" + "+".join(type(o).__name__ for o in a.ops), from_ast(a.left), *[from_ast(x) for x in a.comparators])
     if isinstance(a, ast.BoolOp):
         return N("bool:" + type(a.op).__name__, *[from_ast(x) for x in a.values])
     if isinstance(a, ast.IfExp):
